@@ -26,6 +26,8 @@ def run(ctx):
     V.v8_queries_do_not_mutate_constructor_state(ctx)
     V.v10_param_map(ctx)
     V.v11_provider_results_not_written(ctx)
+    V.v13_dictionaries_kept_as_given(ctx)
+    ctx.floor("V13", 6)
     ctx.floor("V10", 3)
     # the recurrences themselves: provider, size, map and operation of each constructor
     from ..engines import recurrences as N
